@@ -29,7 +29,7 @@ BASE = ["-O1", "-g", "-fno-omit-frame-pointer", "-fno-optimize-sibling-calls",
 
 # Undefined references of the *library* that are diverted to the simulator (xs_*).
 SEAMS = """malloc calloc realloc free strdup strndup vasprintf asprintf
-fopen fdopen freopen setlocale strtod strtof strtold atof __isoc99_sscanf __isoc99_fscanf sscanf fscanf
+fopen fdopen freopen setlocale newlocale duplocale freelocale uselocale strtod strtof strtold atof __isoc99_sscanf __isoc99_fscanf sscanf fscanf
 strtol strtoul atoi
 memcpy memmove memset strcmp strncmp strlen strcpy strncpy strcat memcmp
 __asan_memcpy __asan_memmove __asan_memset qsort lfind bsearch
